@@ -760,6 +760,25 @@ pub fn render_cross(
     })
 }
 
+/// The crate's top-level convenience functions: `from_read`,
+/// `from_read_with_decorator(TrivialDecorator)`, `from_read_rich`, and `parse`
+/// followed by `render_to_string` of the given configuration.
+pub fn convenience_routes(
+    cfg: &Cfg,
+    input: &[u8],
+    width: usize,
+) -> (Outcome<String>, Outcome<String>, Outcome<Vec<Line>>, Outcome<String>) {
+    let fuel = fuel_for(input.len());
+    let a = guarded(fuel, || html2text::from_read(input, width));
+    let b = guarded(fuel, || html2text::from_read_with_decorator(input, width, TrivialDecorator::new()));
+    let c = guarded(fuel, || html2text::from_read_rich(input, width).map(conv_lines));
+    let d = guarded(fuel, || {
+        let tree = html2text::parse(input)?;
+        with_config!(cfg, |c| c.render_to_string(tree, width))
+    });
+    (a, b, c, d)
+}
+
 /// `add_css` / `add_agent_css` alone (C17a).
 pub fn try_add_css(origin: Origin, css: &str) -> Outcome<()> {
     guarded(fuel_for(css.len()), || {
